@@ -144,7 +144,9 @@ func cmdCheck(args []string) int {
 			t := time.Now()
 			fn := prog.Funcs[k]
 			rep := &funcReport{Key: k}
-			if fn == nil {
+			if c := prog.Contracts[k]; c != nil && c.Extern {
+				rep.Res = &VerifyResult{Key: k, Trusted: true}
+			} else if fn == nil {
 				rep.Res = &VerifyResult{Key: k, Aborted: "contract names a function that does not exist in the current tree"}
 			} else {
 				x := NewExec(prog, fn, prop)
